@@ -85,10 +85,8 @@ Definition heap_eqb (a b : heap) : bool := list_eqb (list_eqb range_eqb) a b.
     afterwards; when no slice with fewer than two ranges has spare capacity
     ([nss]) the value-level model of Model/Validators.v (the one the theorems of
     Props/C10.v are about), applied to what the log reads as at that moment,
-    must reproduce the returned issues as well (checked for the first two
-    stages, i.e. the chain VAP, VFC of validator.All(): evaluating it walks over
-    the artifact content lists and costs as much as all the rest). *)
-Fixpoint check_stages (n : nat) (L : list hstep) (fl : outcome (list ref)) (nss : bool) (h : heap)
+    must reproduce the returned issues as well, on every pass. *)
+Fixpoint check_stages (L : list hstep) (fl : outcome (list ref)) (nss : bool) (h : heap)
          (st : list stage) : bool :=
   match st with
   | [] => true
@@ -98,11 +96,11 @@ Fixpoint check_stages (n : nat) (L : list hstep) (fl : outcome (list ref)) (nss 
       let pr := match k with O => proj_tn | _ => proj_id end in
       obs_match (list_eqb oissue_eqb) o (map_out (map (proj_issue pr)) out)
       && match out with Ok _ => heap_eqb h' hp | _ => true end
-      && (if nss && (n <? 2)%nat
+      && (if nss
           then obs_match (list_eqb oissue_eqb) o
                  (map_out (map (proj_issue pr)) (match k with O => vap (val_log h L) | _ => vfc fl (val_log h L) end))
           else true)
-      && check_stages (S n) L fl nss hp t
+      && check_stages L fl nss hp t
   end.
 
 Definition check (c : case) : bool :=
@@ -112,7 +110,7 @@ Definition check (c : case) : bool :=
       let L := map (mk_hstep tbl (map (fun p : part => snd p) arts)) steps in
       let h := mk_heap h0 in
       let fl := match files with Some f => Ok (map (mk_ref tbl) f) | None => Err 1 end in
-      check_stages 0 L fl (no_small_spare L) h stages
+      check_stages L fl (no_small_spare L) h stages
       && list_eqb pair_eqb o_vni (vni (val_log h L))
   | CLog arts steps files o_vap o_vfc o_vni =>
       let tbl := map mk_art arts in
